@@ -86,7 +86,7 @@ DESCRIPTIONS = [
     "{braces} {0}", " separator", "x" * 300,
 ]
 LABELS = ["x", "Y", "z_{1}", "café", "a b", "n\nl", "p cnf 1 1", "%",
-          "{}", "c"]
+          "{}", "c", "φ_1", "file_\udcff"]
 
 
 def _gen_formula(rng):
@@ -300,8 +300,10 @@ def build_formula(f, ctx):
     return F
 
 
-def _store(F, st, fs, ctx):
-    """Store F; return the stored bytes (what a later reader will find)."""
+def _store(F, st, fs, ctx, enc=None):
+    """Store F; return the stored bytes (what a later reader will find).
+    enc: the encoding of the locale, which is the one of the standard
+    output and of a stream that the caller opened without naming one."""
     kw = {"export_header": st["header"], "export_varnames": st["varnames"]}
     how = st["how"]
     plan = {"write_chunk": st["write_chunk"]} if st["write_chunk"] else {}
@@ -313,7 +315,8 @@ def _store(F, st, fs, ctx):
         r = call(F.to_file, name, fileformat=fmt, **kw)
         data = fs.data(name)
     elif how == "stream":
-        w, raw = text_writer(name=st["name"], plan=plan, on_fire=ctx.fault)
+        w, raw = text_writer(name=st["name"], plan=plan, on_fire=ctx.fault,
+                             encoding=enc or "utf-8")
         fmt = "dimacs" if str(st["name"]).endswith((".tex", ".opb")) \
             else None
         r = call(F.to_file, w, fileformat=fmt, **kw)
@@ -325,14 +328,14 @@ def _store(F, st, fs, ctx):
         data = r[1].encode("utf-8") if r[0] == "ok" else b""
         st = dict(st, header=False, varnames=False)
     else:
-        out = SimStream(name="<stdout>")
+        out = SimStream(name="<stdout>", encoding=enc or "utf-8")
         saved = sys.stdout
         sys.stdout = out
         try:
             r = call(to_dimacs_file, F, None, **kw)
         finally:
             sys.stdout = saved
-        data = out.text().encode("utf-8")
+        data = out.text().encode(enc or "utf-8")
     return r, data
 
 
@@ -477,7 +480,7 @@ def execute(case, ctx):
         n = F.number_of_variables()
         clauses = [tuple(c) for c in F]
         st = case["store"]
-        r, data = _store(F, st, fs, ctx)
+        r, data = _store(F, st, fs, ctx, enc=case.get("locale"))
         ctx.log("store", st["how"], st["name"], st["header"], st["varnames"],
                 r[0], len(data))
         where = "formula n=%d m=%d store=%r load=%r" % (n, len(clauses), st,
